@@ -34,13 +34,16 @@ ASSUMPTIONS = [
 TX, PASS = 3, 2
 
 
+UNPADDED = [False]       # per run: the interface does not pad frames to 60 bytes (veth, tap)
+
+
 def mkframe(group, ethertype_user, size, stamp=0, cmd0=0, ether=0x88A4, body=None):
     """a frame as user space sends it: identification datagram + filler datagram"""
     payload = struct.pack("<HBBIHHHH", 0, cmd0, stamp, group, 0x8002, 0, ethertype_user, 0)
     filler = body if body is not None else bytes((i * 5 + 1) & 0xff for i in range(size))
     payload += struct.pack("<BBiHH", 4, 0, 0x10000000, len(filler), 0) + filler + b"\0\0"
     payload = struct.pack("<H", (len(payload) - 2) | 0x1000) + payload[2:]
-    if len(payload) < 46:
+    if len(payload) < 46 and not UNPADDED[0]:
         payload += bytes(46 - len(payload))
     return bytearray(b"\xff" * 6 + b"\x02\0\0\0\0\x01" + struct.pack("!H", ether) + payload)
 
@@ -64,6 +67,7 @@ def run(tape, scenario):
     env = Env(tape, with_kernel=True)
     world = env.world
     kernel = env.kernel
+    UNPADDED[0] = tape.chance("c22/unpadded-frames", 30)
     violations = []
     states = set()
     history = []
@@ -81,14 +85,31 @@ def run(tape, scenario):
         await ec.connect()
         stage[0] = "register"
         with_groups = tape.draw("c22/ngroups", 3) if scenario != "foreign" else 1
+        # a second master on the same program table, as another process that found the
+        # pinned table has it (ParallelEtherCat: self.programs = obj_get(...)); slot numbers
+        # are then drawn towards the ones already taken
+        masters = [ec]
+        if with_groups >= 2 and tape.chance("c22/second-master", 50):
+            ec2 = FastEtherCat("sim0")
+            ec2.programs = ec.programs
+            masters.append(ec2)
+            world.count("c22/second-master-on-the-table")
+        env.collide["rand/ebpfcat"] = lambda a, b: (
+            tape.pick("c22/slot-collide", sorted(groups)) if groups and (a, b) == (0, 63)
+            and tape.chance("c22/collide-slot", 50) else None)
         stack = []
         for _ in range(with_groups):
             m = Marker()
-            cm = ec.register_sync_group(m)
+            cm = tape.pick("c22/registering-master", masters).register_sync_group(m)
             idx = cm.__enter__()
             stack.append(cm)
+            if idx in groups:
+                viol("slot-handed-out-twice", f"program table slot {idx} was given to a "
+                     f"second group while the first is registered")
+                return
             groups[idx] = dict(marker=m, runs=0, inflight=[], noprog=0, noprog_tx=0,
                                noprog_user=0, prog=None)
+        env.collide.pop("rand/ebpfcat", None)
         # the per-group loop counters are 32 bit and only their low byte travels in the
         # frame: start them anywhere (as after a long history), biased to the wrap-arounds
         if groups and tape.chance("c22/preset-counter", 60):
@@ -223,7 +244,7 @@ def run(tape, scenario):
             history.append((what, g))
             if what == "inject":
                 st = groups[g]
-                size = 8 + tape.draw("c22/size", 40)
+                size = (8 if not UNPADDED[0] else 0) + tape.draw("c22/size", 40)
                 st["inflight"].append(mkframe(g, 0x4000 + g, size))
                 world.count("fault/frame-injected")
             elif what == "lose":
@@ -268,7 +289,8 @@ def run(tape, scenario):
                              f"group {g}: {st['noprog_tx']} consecutive re-transmissions "
                              f"without the group's program", mode="anyorder")
             elif what == "inject-unreg":
-                f = mkframe(g, 0x5000 + (g & 0xff), 8 + tape.draw("c22/size", 40))
+                f = mkframe(g, 0x5000 + (g & 0xff),
+                            (8 if not UNPADDED[0] else 0) + tape.draw("c22/size", 40))
                 unreg[g].append(f)
             elif what == "deliver-unreg":
                 i = 0 if fifo else tape.draw("c22/which", len(unreg[g]))
